@@ -31,6 +31,15 @@ Inductive case :=
    LocalityLbEndpoints as (locality label, endpoint ids) for two insertion orders of the endpoints'
    localities *)
 | Locality (id : N) (eps : list ep) (obs : list (string * list N))
+(* the real initSidecarScopes + getSidecarScope (PushContext.InitContext + Proxy.SetSidecarScope) over a config
+   store listing the Sidecars [l] in that order resp. permuted by [p]; [ms] = tags whose selector matches the
+   workload; [obs]/[obs'] = tag of the Sidecar that governs the proxy (None = default scope) *)
+| SidecarPick (id : N) (l : list cfg) (ms : list N) (proxy_ns root_ns : string) (p : list nat) (obs obs' : option N)
+(* per-namespace order of policies after PushContext.InitContext for two listing orders.
+   kind 1 AuthorizationPolicy, 2 Telemetry, 3 RequestAuthentication, 4 PeerAuthentication *)
+| CallSite (id : N) (kind : N) (l : list cfg) (nss : list string) (p : list nat) (out out' : list N)
+(* PushContext.EnvoyFilters(proxy): order of the matched filters (priority, config) for two listing orders *)
+| EnvoyF (id : N) (root : string) (l : list (Z * cfg)) (p : list nat) (out out' : list N)
 (* EXPLORATION (no model): per-resource digests (name digest, bytes digest), sorted by type and name, of
    all CDS/LDS/RDS/EDS resources of one proxy for two runs that must agree. kind 0 = repeated generation
    on one server, 1 = same objects inserted in another order into a second server *)
@@ -43,7 +52,8 @@ Definition case_id c :=
   match c with
   | SortSvc id _ _ _ _ _ | SortCfg id _ _ _ _ _ | CmpSvc id _ _ _ _ _ | CmpCfg id _ _ _ _ _
   | HostIdx id _ _ _ _ | Shards id _ _ _ _ | PickNs id _ _ _ | MergeVh id _ _ _
-  | Locality id _ _ | Direct id _ _ _ | Order id _ _ _ => id
+  | Locality id _ _ | Direct id _ _ _ | Order id _ _ _
+  | SidecarPick id _ _ _ _ _ _ _ | CallSite id _ _ _ _ _ _ | EnvoyF id _ _ _ _ _ => id
   end.
 
 (* ------------------------------------------------------------------ helpers *)
@@ -174,6 +184,18 @@ Definition model_ok (c : case) : bool :=
       list_eqb loc_eqb (locality_order (map fst (group_localities eps)) eps) obs
   | Direct _ _ _ _ => true
   | Order _ _ _ _ => true
+  | SidecarPick _ l ms pns root p obs obs' =>
+      valid_perm (List.length l) p
+      && option_eqb N.eqb (choose_sidecar pns root ms l) obs
+      && option_eqb N.eqb (choose_sidecar pns root ms (nth_all dcfg l p)) obs'
+  | CallSite _ kind l nss p out out' =>
+      valid_perm (List.length l) p
+      && nlist_eqb (map c_tag (callsite_order kind nss l)) out
+      && nlist_eqb (map c_tag (callsite_order kind nss (nth_all dcfg l p))) out'
+  | EnvoyF _ root l p out out' =>
+      valid_perm (List.length l) p
+      && nlist_eqb (map (fun x => c_tag (snd x)) (sort_envoyfilters root l)) out
+      && nlist_eqb (map (fun x => c_tag (snd x)) (sort_envoyfilters root (nth_all (0%Z, dcfg) l p))) out'
   end.
 
 (* ------------------------------------------------------------------ property oracle on the observed output *)
@@ -195,6 +217,9 @@ Definition prop_ok (c : case) : bool :=
                         && negb (has_tie String.compare (map fst obs))
   | Direct _ _ a b => list_eqb nn_eqb a b
   | Order _ _ a b => nlist_eqb a b
+  | SidecarPick _ _ _ _ _ _ obs obs' => option_eqb N.eqb obs obs'
+  | CallSite _ _ _ _ _ out out' => nlist_eqb out out'
+  | EnvoyF _ _ _ _ out out' => nlist_eqb out out'
   end.
 
 Definition mismatches := check_all case_id model_ok prop_ok.
